@@ -1376,6 +1376,75 @@ pub fn big(args: &[String]) {
                 Err(_) => println!("big find4m FAIL panic"),
             }
         }
+        // objects just above rust-bitcoin's 4,000,000-byte decoding cap: partition, fields, conversion, txid
+        "obj4m" => {
+            let len: usize = 4_000_100;
+            let body: Vec<u8> = (0..len).map(|i| (i * 31 + 7) as u8).collect();
+            let mut script = vec![0xfeu8];
+            script.extend_from_slice(&(len as u32).to_le_bytes());
+            script.extend_from_slice(&body);
+            let mut txout = 12345u64.to_le_bytes().to_vec();
+            txout.extend_from_slice(&script);
+            let mut tx = vec![2u8, 0, 0, 0, 1];
+            tx.extend_from_slice(&[0x33; 32]);
+            tx.extend_from_slice(&[1, 0, 0, 0, 0]);
+            tx.extend_from_slice(&[0xfd, 0xff, 0xff, 0xff]);
+            tx.push(1);
+            tx.extend_from_slice(&txout);
+            tx.extend_from_slice(&[9, 0, 0, 0]);
+            let mut fails: Vec<String> = vec![];
+            let mut with_trailing = script.clone();
+            with_trailing.extend_from_slice(&[0xaa, 0xbb]);
+            match pc(|| bsl::Script::parse(&with_trailing).map(|p| (p.consumed(), p.remaining().len(), p.parsed().script().len()))) {
+                Ok(Ok((k, r, l))) if k == script.len() && r == 2 && l == len => {}
+                Ok(x) => fails.push(format!("script-consumed/partition:{:?}", x.map_err(|e| err_name(&e)))),
+                Err(_) => fails.push("script-panic".into()),
+            }
+            match pc(|| {
+                let p = bsl::TxOut::parse(&txout)?;
+                let o = p.parsed();
+                let conv: bitcoin::TxOut = o.into();
+                Ok::<_, Error>((p.consumed(), o.value(), o.script_pubkey().len(), conv.value.to_sat(), conv.script_pubkey.len(), serialize(&conv) == txout))
+            }) {
+                Ok(Ok((k, v, l, cv, cl, same))) => {
+                    if k != txout.len() || v != 12345 || l != len {
+                        fails.push("txout-consumed/partition/fields".into());
+                    }
+                    if cv != 12345 || cl != len || !same {
+                        fails.push("txout-conversion".into());
+                    }
+                }
+                Ok(Err(e)) => fails.push(format!("txout-rejected:{}", err_name(&e))),
+                Err(_) => fails.push("txout-conversion-panic".into()),
+            }
+            match pc(|| {
+                let p = bsl::Transaction::parse(&tx)?;
+                let t = p.parsed();
+                let want: bitcoin::Transaction = bitcoin::consensus::deserialize(&tx).map_err(|_| Error::Other(1))?;
+                let id = t.txid();
+                let id: &[u8] = id.as_ref();
+                Ok::<_, Error>((p.consumed(), t.weight() == want.weight().to_wu(), id == &want.compute_txid().to_byte_array()[..] && t.txid_sha2().as_slice() == id))
+            }) {
+                Ok(Ok((k, w, id))) => {
+                    if k != tx.len() {
+                        fails.push("tx-consumed/partition".into());
+                    }
+                    if !w {
+                        fails.push("tx-weight".into());
+                    }
+                    if !id {
+                        fails.push("txid".into());
+                    }
+                }
+                Ok(Err(e)) => fails.push(format!("tx-rejected:{}", err_name(&e))),
+                Err(_) => fails.push("tx-panic".into()),
+            }
+            if fails.is_empty() {
+                println!("big obj4m ok");
+            } else {
+                println!("big obj4m FAIL {}", fails.join("+"));
+            }
+        }
         _ => println!("big {} unknown", what),
     }
 }
